@@ -69,6 +69,23 @@ func vfCheckInvariants(a *Association, side int, res *vfRes, ev int) {
 		bad("inflight", "nbytes", "nBytes %d != recount %d over %d chunks", q.nBytes, sum, n)
 	}
 
+	// 1b. the advanced peer ack point may only run over abandoned or acknowledged chunks (C07)
+	if sna32GT(a.advancedPeerTSNAckPoint, a.cumulativeTSNAckPoint) && a.advancedPeerTSNAckPoint-a.cumulativeTSNAckPoint < 1<<20 {
+		for t := a.cumulativeTSNAckPoint + 1; sna32LTE(t, a.advancedPeerTSNAckPoint); t++ {
+			c, ok := q.get(t)
+			if !ok {
+				res.violate("C07", "inv/advpeer/unsent", "M-INV side %d: advanced peer ack point %d is beyond the in-flight queue (TSN %d not in flight)", side, a.advancedPeerTSNAckPoint, t)
+
+				break
+			}
+			if !c.abandoned() && !c.acked {
+				res.violate("C07", "inv/advpeer/live", "M-INV side %d: advanced peer ack point %d covers TSN %d which is neither abandoned nor acknowledged", side, a.advancedPeerTSNAckPoint, t)
+
+				break
+			}
+		}
+	}
+
 	// 2. pending queue
 	pb, pc, walked := vfWalkPending(a.pendingQueue)
 	if walked {
@@ -129,7 +146,7 @@ func vfCheckInvariants(a *Association, side int, res *vfRes, ev int) {
 		if rq.chunkSize > 0 && !rq.hasChunk(rq.tailTSN) {
 			bad("recvq", "tail-unset", "tailTSN %d is not marked received while %d TSNs are held", rq.tailTSN, rq.chunkSize)
 		}
-		if rq.chunkSize > 0 && rq.hasChunk(rq.cumulativeTSN+1) {
+		if rq.chunkSize > 0 && rq.hasChunk(rq.cumulativeTSN+1) && !a.willSendAbort && a.getState() != closed {
 			// legal transiently inside handleData before the pop loop, but not at the hooks
 			bad("recvq", "unpopped", "cumulativeTSN+1 = %d is marked received but was not popped", rq.cumulativeTSN+1)
 		}
